@@ -99,7 +99,12 @@ func (e *Exporter) Next() (*SnapshotNode, error) {
 			Version: node.nodeKey.Version(),
 			Height:  node.subtreeHeight,
 		}, nil
-	case err := <-e.errCh:
+	case err, ok := <-e.errCh:
+		if !ok {
+			// both channels are closed when the traversal has ended: a receive from the
+			// closed error channel is the end of the stream, not a nil error
+			return nil, ErrorExportDone
+		}
 		return nil, err
 	}
 }
